@@ -1,7 +1,7 @@
 import MqttVerif.Proofs.Heads
 /-
   C18: "nothing is written before connect() is called, the first packet is CONNECT".  `Clean p w`: protocol `p` is idle and no
-  DelayedCall of the table is a keepalive or retransmission callback of `p`.  From a clean state only `connect()` on `p` makes the
+  pending DelayedCall of the table is a keepalive or retransmission callback of `p`.  From a clean state only `connect()` on `p` makes the
   client write on `p`'s transport, and the first thing it writes is the CONNECT; every other operation -- on `p` (refused or ignored by
   the idle state) or on any other protocol -- leaves `p` clean and writes nothing on `p`'s transport.  No invariant, no `Env`.
 -/
@@ -32,7 +32,7 @@ def TKind.of (p : Nat) : TKind → Prop
 
 structure Clean (p : Nat) (w : World) : Prop where
   idle : (w.proto p).state = .idle
-  noTimer : ∀ t tm, w.timers.get? t = some tm → ¬ tm.kind.of p
+  noTimer : ∀ t tm, w.timers.get? t = some tm → tm.status = .pending → ¬ tm.kind.of p
 
 /-- unconditionally nothing for `p`'s transport, and `p` stays clean if it was -/
 def OA (p : Nat) (s : Step) : Prop := ∀ w, ∃ l, (s w).1.log = w.log ++ l ∧ NoW p l ∧ (Clean p w → Clean p (s w).1)
@@ -77,7 +77,7 @@ theorem oa_callLater (d : Rat) (k : TKind) (hk : ¬ k.of p) {f : Nat → Step} (
   have ht' : ((w.callLater d k).1).timers.get? t = some tm := ht
   simp only [callLater_timers, Dict.get?_set] at ht'
   split at ht'
-  · injection ht' with ht'; subst ht'; exact hk
+  · injection ht' with ht'; subst ht'; exact fun _ => hk
   · exact h.noTimer t tm ht'
 theorem oa_newDfd {f : Nat → Step} (hf : ∀ t, OA p (f t)) : OA p (newDfd f) :=
   oa_read fun _ => oa_seq (oa_mod (fun _ => rfl) (fun _ => rfl) (fun _ => rfl)) (hf _)
@@ -109,7 +109,7 @@ theorem oa_cancelTimer (t : Nat) : OA p (cancelTimer t) := by
       simp only [Dict.get?_set] at ht''
       split at ht''
       · injection ht'' with ht''; subst ht''
-        exact h.noTimer t tm0 ht
+        intro hp; cases hp
       · exact h.noTimer t' tm' ht''
     | called => exact oa_raise _ w
     | cancelled => exact oa_raise _ w
@@ -158,7 +158,7 @@ theorem oaw_retry {q rid : Nat} (hq : q ≠ p) {f : World → World}
     · exact h.noTimer t tm (by rw [← h3]; exact ht)
     · rw [h3, Dict.get?_set] at ht
       split at ht
-      · injection ht with ht; subst ht; exact hq
+      · injection ht with ht; subst ht; exact fun _ => hq
       · exact h.noTimer t tm ht
 theorem retryPublishW_oaw (q rid : Nat) (dup : Bool) (hq : q ≠ p) : OAW p (retryPublishW q rid dup) :=
   oaw_retry (rid := rid) hq (fun w => by simp only [retryPublishW]; split <;> exact ⟨_, rfl⟩) (retryPublishW_protos q rid dup)
@@ -703,13 +703,14 @@ theorem clean_handler (p : Nat) (w : World) (hc : Clean p w) (op : Op) :
       rw [e]
       split
       · -- the timer is marked as called: same callbacks in the table
-        have hk : ¬ tm.kind.of p := hc.noTimer t tm ht
+        rename_i hpend
+        have hk : ¬ tm.kind.of p := hc.noTimer t tm ht hpend
         have hc1 : Clean p { w with now := max w.now tm.due, timers := w.timers.set t { tm with status := .called } } :=
           ⟨hc.idle, fun t' tm' ht' => by
             have ht'' : (w.timers.set t { tm with status := .called }).get? t' = some tm' := ht'
             simp only [Dict.get?_set] at ht''
             split at ht''
-            · injection ht'' with ht''; subst ht''; exact hk
+            · injection ht'' with ht''; subst ht''; exact fun _ => hk
             · exact hc.noTimer t' tm' ht''⟩
         obtain ⟨l, a1, a2, a3⟩ := oa_runTimer tm.kind hk { w with now := max w.now tm.due, timers := w.timers.set t { tm with status := .called } }
         exact ⟨l, a1, Or.inl ⟨a3 hc1, a2⟩⟩
@@ -772,7 +773,7 @@ theorem started_run (p : Nat) : ∀ (ops : List Op) (w : World), Started p w →
   | nil => intro w h; exact h
   | cons op r ih => intro w h; exact ih _ (started_step p w h op)
 theorem clean_init (p : Nat) (profile : Nat) : Clean p (World.init profile) ∧ NoW p (World.init profile).log :=
-  ⟨⟨rfl, fun t tm h => by simp [World.init, Dict.get?] at h⟩, fun o ho => by simp [World.init] at ho⟩
+  ⟨⟨rfl, fun t tm h _ => by simp [World.init, Dict.get?] at h⟩, fun o ho => by simp [World.init] at ho⟩
 theorem started_init (p : Nat) (profile : Nat) : Started p (World.init profile) := Or.inl (clean_init p profile)
 
 /-- as long as `connect()` is not called on `p`, `p` stays clean and nothing is written for it -/
@@ -786,6 +787,20 @@ theorem quiet_until_connect (p : Nat) : ∀ (ops : List Op) (w : World), Clean p
     obtain ⟨l, h1, h2⟩ := clean_step p w hc op
     rcases h2 with ⟨c1, c2⟩ | ⟨⟨a, ha⟩, _⟩
     · exact ih (step w op) c1 (by rw [h1]; exact hn.append c2) fun a ha => hno a (List.mem_cons_of_mem _ ha)
+    · exact absurd (by rw [ha]; exact List.mem_cons_self) (hno a)
+
+/-- the same, about what the history appends: from ANY state where `p` is clean (e.g. after its loss has been reported) -/
+theorem quiet_delta (p : Nat) : ∀ (ops : List Op) (w : World), Clean p w → (∀ a, Op.connect p a ∉ ops) →
+    ∃ l, (run w ops).log = w.log ++ l ∧ NoW p l ∧ Clean p (run w ops) := by
+  intro ops
+  induction ops with
+  | nil => intro w hc _; exact ⟨[], by simp [run], NoW.nil p, hc⟩
+  | cons op r ih =>
+    intro w hc hno
+    obtain ⟨l, h1, h2⟩ := clean_step p w hc op
+    rcases h2 with ⟨c1, c2⟩ | ⟨⟨a, ha⟩, _⟩
+    · obtain ⟨l2, g1, g2, g3⟩ := ih (step w op) c1 fun a ha => hno a (List.mem_cons_of_mem _ ha)
+      exact ⟨l ++ l2, by show (run (step w op) r).log = _; rw [g1, h1, List.append_assoc], c2.append g2, g3⟩
     · exact absurd (by rw [ha]; exact List.mem_cons_self) (hno a)
 
 end Mqtt
